@@ -5,6 +5,7 @@
 -/
 import FluteModel.Props.AdmissionLink
 import FluteModel.FdtAbs
+import FluteModel.Lemmas.XmlTok
 namespace Flute.Props.C01.Admission
 open Flute Flute.Admission
 
@@ -253,5 +254,34 @@ theorem refused_object_leaves_no_trace (s : FdtAbs.State) (a : FdtAbs.ObjAttrs) 
   (repeat' split at hr) <;> (try cases hr)
   rename_i h1
   exact tooManyBlocks_unreachable _ _ _ h1
+
+/-! ### `hx` discharged for the `fdtabs` driver: it instantiates `cfg.xmlOk` with the byte scan `XmlTok.xmlOkTok`, whose
+      code points are `XmlTok.cpTok` (UTF-8 decoding of the hex token) -/
+
+/-- `fdtabs_add_link` for the states the driver runs (no string hypothesis left) -/
+theorem fdtabs_add_link_driver (s : FdtAbs.State) (a : FdtAbs.ObjAttrs) (hs : s.cfg.xmlOk = XmlTok.xmlOkTok)
+    (dflt : Oti) (hd : s.cfg.oti = toF dflt) (ovr : Option Oti) (ha : a.oti = ovr.map toF)
+    (prio : Nat) (queues : List Nat) (hq : prio ∈ queues) :
+    let cfg : Cfg := { queues := queues, complete := decide (s.complete = some true), oti := dflt }
+    let obj := objOf XmlTok.cpTok a ovr
+    (match accepts cfg prio obj with
+     | .error _ => (FdtAbs.add s a).2 = .panic
+     | .ok (.error _) => (FdtAbs.add s a).2 = .err ∧ (FdtAbs.add s a).1.files = s.files
+     | .ok (.ok adm) => (FdtAbs.add s a).2 = .ok s.nextToi ∧
+         (FdtAbs.add s a).1.files = s.files ++ [(⟨s.nextToi, a, toF adm.oti, false, 0⟩ : FdtAbs.FileDesc)]) ∧
+    ((FdtAbs.add s a).1.nextToi ≠ s.nextToi → consumesToi cfg prio obj = true) ∧
+    (consumesToi cfg prio obj = false → (FdtAbs.add s a).1.nextToi = s.nextToi) :=
+  fdtabs_add_link s a XmlTok.cpTok (fun str => by rw [hs]; exact Lemmas.XmlTok.xmlOkTok_eq str) dflt hd ovr ha prio queues hq
+
+/-- `refused_object_leaves_no_trace` for the states the driver runs -/
+theorem refused_object_leaves_no_trace_driver (s : FdtAbs.State) (a : FdtAbs.ObjAttrs)
+    (hs : s.cfg.xmlOk = XmlTok.xmlOkTok)
+    (dflt : Oti) (hd : s.cfg.oti = toF dflt) (ovr : Option Oti) (ha : a.oti = ovr.map toF)
+    (prio : Nat) (queues : List Nat) (hq : prio ∈ queues) (r : Refuse)
+    (hr : accepts { queues := queues, complete := decide (s.complete = some true), oti := dflt } prio
+            (objOf XmlTok.cpTok a ovr) = .ok (.error r)) :
+    (FdtAbs.add s a).2 = .err ∧ (FdtAbs.add s a).1.files = s.files ∧ r ≠ .tooManyBlocks :=
+  refused_object_leaves_no_trace s a XmlTok.cpTok (fun str => by rw [hs]; exact Lemmas.XmlTok.xmlOkTok_eq str)
+    dflt hd ovr ha prio queues hq r hr
 
 end Flute.Props.C01.Admission
